@@ -65,14 +65,17 @@ def qsvs_json(cr):
         if not q:
             rows.append({"name": name, "min": None, "max": None})
         else:
-            rows.append({"name": name, "min": fa.farr(q["min"]), "max": fa.farr(q["max"])})
+            mn, mx = np.asarray(q["min"]), np.asarray(q["max"])
+            if mn.dtype.kind != "f":  # statistics of integer tensors (never read by materialisation)
+                mn, mx = mn.astype(np.float64), mx.astype(np.float64)
+            rows.append({"name": name, "min": fa.farr(mn), "max": fa.farr(mx)})
     return rows
 
 
 def qsv_finite(cr):
     if cr is None:
         return True
-    return all((not q) or (fa.finite(q["min"]) and fa.finite(q["max"])) for q in cr.values())
+    return all((not q) or (fa.finite(np.asarray(q["min"], dtype=np.float64)) and fa.finite(np.asarray(q["max"], dtype=np.float64))) for q in cr.values())
 
 
 def param_json(p):
